@@ -118,6 +118,7 @@ func (cc *LBClient) AddClient(c BalancingClient) int {
 		c:           c,
 		healthCheck: cc.HealthCheck,
 	})
+	vhook("lb.add", cc, cc.cs[len(cc.cs)-1], len(cc.cs), 0)
 	return len(cc.cs)
 }
 
@@ -131,6 +132,7 @@ func (cc *LBClient) RemoveClients(rc func(BalancingClient) bool) int {
 	n := 0
 	for _, cs := range cc.cs {
 		if rc(cs.c) {
+			vhook("lb.rm", cc, cs, 0, 0)
 			continue
 		}
 		cc.cs[n] = cs
@@ -143,6 +145,7 @@ func (cc *LBClient) RemoveClients(rc func(BalancingClient) bool) int {
 		cc.cs[i] = nil
 	}
 	cc.cs = cc.cs[:n]
+	vhook("lb.removed", cc, nil, n, 0)
 
 	return len(cc.cs)
 }
@@ -156,21 +159,25 @@ func (cc *LBClient) get() *lbClient {
 	cs := cc.cs
 	if len(cs) == 0 {
 		// No clients (e.g. all removed): avoid panicking on cs[0].
+		vhook("lb.noclients", cc, nil, 0, 0)
 		return nil
 	}
 
 	minC := cs[0]
 	minN := minC.PendingRequests()
 	minT := atomic.LoadUint64(&minC.total)
+	vhook("lb.read", cc, minC, minN, int(minT))
 	for _, c := range cs[1:] {
 		n := c.PendingRequests()
 		t := atomic.LoadUint64(&c.total)
+		vhook("lb.read", cc, c, n, int(t))
 		if n < minN || (n == minN && t < minT) {
 			minC = c
 			minN = n
 			minT = t
 		}
 	}
+	vhook("lb.choose", cc, minC, minN, int(minT))
 	return minC
 }
 
@@ -191,6 +198,7 @@ func (c *lbClient) DoDeadline(req *Request, resp *Response, deadline time.Time) 
 		time.AfterFunc(penaltyDuration, c.decPenalty)
 	} else {
 		atomic.AddUint64(&c.total, 1)
+		vhook("lb.total", c, nil, 0, 0)
 	}
 	return err
 }
@@ -210,6 +218,7 @@ func (c *lbClient) isHealthy(req *Request, resp *Response, err error) bool {
 
 func (c *lbClient) incPenalty() bool {
 	m := atomic.AddUint32(&c.penalty, 1)
+	vhook("lb.inc", c, nil, int(m), maxPenalty)
 	if m > maxPenalty {
 		c.decPenalty()
 		return false
@@ -218,6 +227,7 @@ func (c *lbClient) incPenalty() bool {
 }
 
 func (c *lbClient) decPenalty() {
+	vhook("lb.dec", c, nil, 0, 0)
 	atomic.AddUint32(&c.penalty, ^uint32(0))
 }
 
